@@ -71,7 +71,7 @@ fn run(ctx: &mut Ctx) {
     scan_automaton(ctx, &arena);
     // foreign and structured contents: headers of other byte orders / other boot protocols in front of (or instead
     // of) a real header, and real headers with a tag chain whose stored length goes on behind the end tag
-    ctx.bound("foreign_and_structured", "buffers holding, at offset 0 / 8 / 5, a big-endian Multiboot2 header (both architectures), a Multiboot1 header, the boot-loader magic 0x36D76289, each alone and followed by a real header; real headers with tags [entry][end] and a stored length that ends at, 8, 16 or 24 bytes behind the end tag, or cuts it");
+    ctx.bound("foreign_and_structured", "buffers holding, at offset 0 / 8 / 5, a big-endian Multiboot2 header (both architectures), a Multiboot1 header, the boot-loader magic 0x36D76289, an ELF32 / ELF64 identification, a DOS/PE stub, a gzip magic, each alone and followed by a real header; real headers with tags [entry][end] and a stored length that ends at, 8, 16 or 24 bytes behind the end tag, or cuts it");
     {
         let be = |arch: u32, len: u32| -> Vec<u8> {
             let mut v = vec![];
@@ -100,6 +100,11 @@ fn run(ctx: &mut Ctx) {
             ("Multiboot1 header", { let mut v = vec![]; for w in [0x1BAD_B002u32, 3, 0u32.wrapping_sub(0x1BAD_B002 + 3)] { v.extend_from_slice(&w.to_le_bytes()); } v.extend_from_slice(&[0; 4]); v }),
             ("boot-loader magic", { let mut v = 0x36D7_6289u32.to_le_bytes().to_vec(); v.extend_from_slice(&[4, 0, 0, 0, 16, 0, 0, 0, 0, 0, 0, 0]); v }),
         ];
+        // file headers a kernel image starts with
+        foreign.push(("ELF32 identification", vec![0x7F, b'E', b'L', b'F', 1, 1, 1, 0, 0, 0, 0, 0, 0, 0, 0, 0]));
+        foreign.push(("ELF64 identification", vec![0x7F, b'E', b'L', b'F', 2, 1, 1, 0, 0, 0, 0, 0, 0, 0, 0, 0]));
+        foreign.push(("DOS / PE stub", { let mut v = vec![b'M', b'Z', 0x90, 0, 3, 0, 0, 0]; v.extend_from_slice(&[4, 0, 0, 0, 0xFF, 0xFF, 0, 0]); v }));
+        foreign.push(("gzip magic", vec![0x1F, 0x8B, 8, 0, 0, 0, 0, 0]));
         foreign.push(("nothing", vec![]));
         let mut cases: Vec<(String, Vec<u8>)> = vec![];
         for (name, f) in &foreign {
